@@ -60,6 +60,7 @@ class Eval:
     def __init__(self, env=None):
         self.tr = []          # event trace (current list being appended to)
         self.env = dict(env or {})  # reserved temporaries: name key -> value term
+        self.env_writes = []        # keys in order of binding
         self.refs = []        # free plain-name references (hygiene)
         self.binders = []     # introduced binders: (key, identifier, kind)
         self.lambdas = {}     # id -> (arguments, body tree)
@@ -69,6 +70,18 @@ class Eval:
     # ------------------------------------------------------------------------------
     def emit(self, *ev):
         self.tr.append(ev)
+
+    def round_of(self, run, fn):
+        """evaluate fn as ONE GENERIC ROUND of a run (segment): like sub(), and afterwards
+        every reserved temporary that the round binds under a name which does not change
+        with the round holds what the LAST round stored -- not the generic round's value"""
+        mark = len(self.env_writes)
+        evs, r = self.sub(fn)
+        j = str(run.jvar)
+        for key in self.env_writes[mark:]:
+            if j not in repr(key) and key in self.env and not (isinstance(self.env[key], tuple) and self.env[key][:1] == ("last-round-value",)):
+                self.env[key] = ("last-round-value", repr(key), tagstr(run.tag) if hasattr(run, "tag") else j)
+        return evs, r
 
     def sub(self, fn):
         """run fn with a fresh event list; returns (events, result)"""
@@ -86,7 +99,7 @@ class Eval:
         vals = []
         for x in lst:
             if isinstance(x, Seg):
-                evs, v = self.sub(lambda: [self.expr(i) for i in x.items])
+                evs, v = self.round_of(x, lambda: [self.expr(i) for i in x.items])
                 if evs:
                     self.emit("rep", x.length, x.jvar, x.rev, evs)
                 vals.append(("segvals", x.length, x.jvar, x.rev, tuple(v)))
@@ -154,7 +167,7 @@ class Eval:
             return saved(o)
         self.abstract = abstract2
         try:
-            evs, v = self.sub(lambda: self.expr(f.step))
+            evs, v = self.round_of(f, lambda: self.expr(f.step))
         finally:
             self.abstract = saved
         idx = [i for i, e in enumerate(evs) if e == ("accref",)]
@@ -197,6 +210,7 @@ class Eval:
         key = nk(t.id)
         if is_reserved(t.id):
             self.env[key] = v
+            self.env_writes.append(key)
             self.emit("tmpbind", key, v)
         else:
             self.emit("bind", key, v)
@@ -236,7 +250,7 @@ class Eval:
                 if not isinstance(v, Seg):
                     raise NotInFragment("dict display: misaligned segments")
                 vi = [ops.subst_j(i, v.jvar, k.jvar) for i in v.items]
-                evs, r = self.sub(lambda: [(self.expr(a), self.expr(b)) for a, b in zip(k.items, vi)])
+                evs, r = self.round_of(k, lambda: [(self.expr(a), self.expr(b)) for a, b in zip(k.items, vi)])
                 if evs:
                     self.emit("rep", k.length, k.jvar, k.rev, evs)
                 out.append(("segvals", k.length, k.jvar, k.rev, tuple(r)))
@@ -375,7 +389,7 @@ class Eval:
         kws = []
         for k in e.keywords:
             if isinstance(k, Seg):
-                evs, r = self.sub(lambda: [(nk(i.arg) if i.arg is not None else None, self.expr(i.value)) for i in k.items])
+                evs, r = self.round_of(k, lambda: [(nk(i.arg) if i.arg is not None else None, self.expr(i.value)) for i in k.items])
                 if evs:
                     self.emit("rep", k.length, k.jvar, k.rev, evs)
                 kws.append(("segvals", k.length, k.jvar, k.rev, tuple(r)))
